@@ -16,6 +16,11 @@ CLAIMED = {
         technique="relations (eq, hash-eq, cmp) of the hashable and orderable wrappers and bit-exact serialisation round trips evaluated on a universe of values, recorded as matrices; ValueLaws.tla checked by TLC for all pairs and triples",
         text="Equivalence, eq => equal hash, total order consistent with eq, and round-trip identity (spill serializer, WAL close+reopen, snapshot) over a universe of ~85 values per run (every variant, NaN payloads, signed zeros, infinities, integers around 2^53, i64 extremes, empty / non-ASCII strings, nested lists and maps, zero-length vectors + seeded random numerics); consequences for BTreeSet / HashSet / sort checked directly.",
         note="All f64 bit patterns are sampled, not enumerated. JSON for language bindings is out of scope."),
+    "C19": dict(
+        engine="misc", category="exploration", design_ref="DESIGN.md §7 C19",
+        technique="every bundled graph algorithm run on all small directed multigraphs (exhaustive enumeration) and seeded random ones; results recorded and judged by TLC against the mathematical definitions written in GraphAlgo.tla (relaxation fixpoint, reachability, brute force over edge subsets / cuts / node subsets)",
+        text="All multigraphs with <= 3 nodes and <= 2 (quick) / 3 (thorough) edges over every ordered pair (self-loops, parallel and antiparallel edges, isolated nodes) x weight class {1, 2, missing}, plus random graphs to 6 nodes / 9 edges with zero and equal weights; every source / target. Checked: Dijkstra = Bellman-Ford = Floyd-Warshall = definition, paths real and optimal (Dijkstra, A*), negative weights and negative-cycle detection, weak / strong components and counts, topological order iff acyclic, Kruskal and Prim (every start) minimum spanning forests, max flow = min cut with capacities and conservation, BFS order / layers, DFS, triangles, articulation points, bridges, core numbers, PageRank is a distribution.",
+        note="Definitions are evaluated by brute force, so graphs are small. Community detection, betweenness / closeness and min-cost flow are not covered. PageRank values are not compared."),
     "C07": dict(
         engine="txn", category="model_checking", design_ref="DESIGN.md §7 C07",
         technique="copies (import(export), to_memory, save+open, open_in_memory) logged after every action of multi-session histories and validated by TLC against Mvcc.tla (mechanism enumeration or committed graph); plus bit-exact value-fidelity checks and child-process enumeration of truncated / bit-flipped snapshots",
@@ -91,8 +96,8 @@ CLAIMED = {
 REASON_PENDING = "not claimed yet in this round: specification and conformance binding for this property are designed (DESIGN.md §7) but not built; no check is registered rather than an unsound one"
 
 ENGINES = [
-    dict(name="misc", path="spec/misc", serves_properties=["C15", "C16"],
-         kind_free_text="TLA+ Codec.tla / ValueLaws.tla (laws and identities over recorded results, evaluated by TLC); harness `gv codec`, `gv pcol`, `gv vals`"),
+    dict(name="misc", path="spec/misc", serves_properties=["C15", "C16", "C19"],
+         kind_free_text="TLA+ Codec.tla / ValueLaws.tla / GraphAlgo.tla (laws and identities over recorded results, evaluated by TLC); harness `gv codec`, `gv pcol`, `gv vals`, `gv galgo`"),
     dict(name="query", path="spec/query", serves_properties=["C08", "C09", "C10", "C11"],
          kind_free_text="TLA+ QuerySem.tla (executable reference semantics) + Check_Query.tla / Metamorphic.tla evaluated by TLC; harness `gv q` / `gv qmeta` generates graphs x queries, renders GQL/Cypher, runs sessions and hand-built pipelines"),
     dict(name="store", path="spec/store", serves_properties=["C13", "C14"],
